@@ -21,7 +21,9 @@ import zlib
 
 import edzed
 
-from ..enc import enc, enc_data, err_kind
+import math
+
+from ..enc import enc as _enc, err_kind
 from ..simrun import Sim, Probe
 from ..runner import shrink_ops
 
@@ -31,7 +33,8 @@ RULE = ("real filter objects called directly and through Event.send to a probe b
         "u_rise also None) x 13 previous values (UNDEF, 6 falsy, 6 truthy) x 8 values, plus missing keys "
         "-- exhaustive in both tiers. Delta: all value sequences up to length 3 (quick) / 5 (thorough) "
         "over 8 values x 7 deltas, plus random sequences up to length 40 with dyadic floats and large "
-        "ints, non-numeric values and missing keys. DataEdit: all chains up to length 2 (quick) / 3 "
+        "ints, non-numeric values and missing keys; all sequences up to length 3 (quick) / 4 (thorough) over {NaN, +inf, "
+        "-inf, 0, 1, 2.5} x 7 deltas incl. inf / NaN, and random ones with non-finite floats at every position. DataEdit: all chains up to length 2 (quick) / 3 "
         "(thorough) over a 61-operation alphabet on keys a,b,c and all chains of length 4 over a "
         "14-operation alphabet (thorough), each on all 8 input dicts over the key set, plus random "
         "chains up to length 5. Pipelines: all pipelines of <= 2 (quick) / <= 3 (thorough) filters over "
@@ -41,8 +44,9 @@ RULE = ("real filter objects called directly and through Event.send to a probe b
         "A case is distinct by its (lines, trace) hash; non-trivial if at least one step passed and one "
         "was stopped or edited")
 ASSUMPTIONS = [
-    "numbers given to Delta are ints below 2**40 or dyadic floats k/8 below 2**20, so that IEEE "
-    "subtraction is exact and equals the model's rational arithmetic",
+    "finite numbers given to Delta are ints below 2**40 or dyadic floats k/8 below 2**20, so that IEEE "
+    "subtraction is exact (no rounding, no overflow) and equals the model's rational arithmetic; the non-finite "
+    "floats NaN, +inf, -inf are in the domain (model: Filters.XNum)",
     "a filter object is used at one position of one Event only (no aliasing of a stateful Delta)",
     "event data keys are strings without the protocol's separator characters; values are UNDEF, None, "
     "numbers, strings, flat tuples/lists",
@@ -55,10 +59,33 @@ EXHAUSTIVE = {'quick': False, 'thorough': False}
 U = {'U': 1}            # JSON form of UNDEF
 
 
+NAN, INF, NINF = {'F': 'nan'}, {'F': 'inf'}, {'F': '-inf'}      # JSON forms of the non-finite floats
+# on the wire the non-finite floats travel as reserved strings (lean/EdzedModel/Filters.lean `nanVal` …)
+CARRIER = {'nan': '\x00NaN', 'inf': '\x00+inf', '-inf': '\x00-inf'}
+
+
+def _carry(v):
+    if isinstance(v, float) and not math.isfinite(v):
+        return CARRIER['nan' if math.isnan(v) else 'inf' if v > 0 else '-inf']
+    if isinstance(v, (tuple, list)):
+        return type(v)(_carry(x) for x in v)
+    return v
+
+
+def enc(v):
+    return _enc(_carry(v))
+
+
+def enc_data(d):
+    return 'd{' + ';'.join(f'{k}={enc(d[k])}' for k in sorted(d)) + '}'
+
+
 def dec(j):
     if isinstance(j, dict):
         if 'U' in j:
             return edzed.UNDEF
+        if 'F' in j:
+            return float(j['F'])
         return tuple(dec(x) for x in j['T'])
     if isinstance(j, list):
         return [dec(x) for x in j]
@@ -548,7 +575,9 @@ class RefDelta:
         if not isinstance(v, (int, float)):
             self.dead = True
             raise Unspecified
-        if abs(v - self.accepted[-1]) < self.delta:
+        # the property: passes iff it differs from the last passed value by AT LEAST delta -- a difference
+        # that is NaN (a NaN value, inf - inf) is not "at least delta"
+        if not abs(v - self.accepted[-1]) >= self.delta:
             raise Reject
         self.accepted.append(v)
         return data
@@ -661,8 +690,9 @@ def make_ref(spec):
 
 def same(a, b):
     """equal dicts with identical value types (True is not 1 here)"""
-    return (a.keys() == b.keys()
-            and all(type(a[k]) is type(b[k]) and (a[k] == b[k] or a[k] is b[k]) for k in a))
+    def eq(x, y):
+        return x == y or x is y or (isinstance(x, float) and isinstance(y, float) and math.isnan(x) and math.isnan(y))
+    return a.keys() == b.keys() and all(type(a[k]) is type(b[k]) and eq(a[k], b[k]) for k in a)
 
 
 def oracle(scn, res):
@@ -840,9 +870,19 @@ def delta_scenarios(rng, tier):
             seqs = list(itertools.product(DVALS, repeat=n))
             for i in range(0, len(seqs), 64):
                 yield delta_batch(delta, [list(s) for s in seqs[i:i + 64]])
+    # the non-finite floats: NaN / +inf / -inf at the first and at later positions, also as delta
+    xvals = [NAN, INF, NINF, 0, 1, 2.5]
+    for delta in (1, 0, 0.5, -1, INF, NAN, NINF):
+        for n in range(1, (3 if tier == 'quick' else 4) + 1):
+            seqs = list(itertools.product(xvals, repeat=n))
+            for i in range(0, len(seqs), 72):
+                yield delta_batch(delta, [list(s) for s in seqs[i:i + 72]])
     for _ in range(800 if tier == 'quick' else 6000):
         mode = rng.random()
-        if mode < 0.45:
+        if mode < 0.12:
+            delta = rng.choice([0, 1, 0.5, 2.5, INF, NAN, -3])
+            pool = lambda: rng.choice([NAN, NAN, INF, NINF, rng.randint(-6, 6), rng.randint(-40, 40) / 8, True])
+        elif mode < 0.45:
             delta = rng.choice([0, 1, 2, 3, 7, 100, 2 ** 33, -5])
             pool = lambda: rng.choice([rng.randint(-12, 12), rng.randint(-2 ** 40, 2 ** 40), rng.randint(0, 1) == 1])
         elif mode < 0.9:
